@@ -199,7 +199,7 @@ def check(prop):
             raise Infra("Lookups.tla lemmas fail: %s" % mc.violation)
         tr = os.path.join(d, "options.ndjson")
         if tier == "quick":
-            args = ["options", "-contents", "6", "-budget", "40000"]
+            args = ["options", "-contents", "6", "-budget", "150000"]
         else:
             args = ["options", "-contents", "20", "-budget", "1500000"]
         st = run_driver(args, tr, os.path.join(d, "options.stats"))
